@@ -1,14 +1,57 @@
-import IsalVerif.Lemmas.Resubmit
-import IsalVerif.Lemmas.Pad
+import IsalVerif.Lemmas.PadSpec
+import IsalVerif.Spec.Sha1
+import IsalVerif.Spec.Sha256
+import IsalVerif.Spec.Sha512
+import IsalVerif.Spec.Md5
+import IsalVerif.Spec.Sm3
 /-!
 # C01 — multi-buffer digests equal the standard hash for every submission history
 
 Property theorems only; helper lemmas live in `Lemmas/`.  The model is `Impl/HashMB.lean`
 (executable: the same definitions run in `isal_model` and are compared with the 28 real
-(algorithm, family) managers on every check run).
+(algorithm, family) managers on every check run).  Everything is generic in the compression
+function, the number of lanes `P.nl ≥ 1` and the single-buffer threshold `P.sb`.
+
+`run P A (world0 P g) ops = some w` : the history `ops` of submit/flush calls — any contexts, any
+flags (rejected calls included), any segment lengths, any interleaving — was executed from a
+freshly initialised manager whose contexts hold arbitrary digest words `g`, ending in world `w`.
+`w.sp c = some (b, closed)`: the bytes accepted for context `c` since its last FIRST are `b`
+(`specSubmit`: FIRST/ENTIRE starts a new stream, UPDATE/LAST append), `closed` iff LAST was given.
 -/
 namespace IsalVerif.HashMB
 variable {D : Type}
+
+/-- the Merkle–Damgård state of message `b`: fold the compression function over the padded message -/
+def mdState (A : Alg D) (b : Bytes) : D :=
+  (chunks A.B (b ++ mdPad A.B A.L A.lenBE b.length)).foldl A.f A.init
+
+/-- **C01.** After any history, a context that is not in flight and whose stream is closed holds
+    exactly the standard digest state of the concatenation of its segments since FIRST; a context
+    that is idle mid-stream holds the state after the whole blocks and the unhashed tail. The
+    status flag tells which. -/
+theorem C01 (P : Params) (hP : 0 < P.nl) (A : Alg D) (hA : AlgOk A) (g : Cid → D) (ops : List Op)
+    (w : World D) (hrun : run P A (world0 P g) ops = some w)
+    (c : Cid) (b : Bytes) (closed : Bool) (hsp : w.sp c = some (b, closed))
+    (hidle : (w.m.ctxs c).processing = false) (hlen : b.length < 2^61) :
+    (w.m.ctxs c).complete = closed ∧
+    (closed = true → (w.m.ctxs c).dig = A.fin (mdState A b)) ∧
+    (closed = false → (⟨(w.m.ctxs c).dig, (w.m.ctxs c).part⟩ : S UInt8 D) = absorb A.B A.f ⟨A.init, []⟩ b) := by
+  have hB : 0 < A.B := by rcases hA with ⟨h, _⟩ | ⟨h, _⟩ <;> omega
+  have hg := run_good P A hB ops _ w hrun (world0_good P hP A hB g)
+  obtain ⟨h1, _, h3⟩ := good_idle A w hg c hidle b closed hsp
+  refine ⟨h1, fun hc => ?_, fun hc => ?_⟩
+  · subst hc; simp only [if_true] at h3; rw [h3]; exact target_closed A hA b hlen
+  · subst hc; simpa using h3
+
+/-- reuse: FIRST (or ENTIRE) starts a new stream whatever the context held before -/
+theorem C01_reuse (sp : SpecCtx) (data : Bytes) (flags : Nat) (h : flags % 2 = 1) :
+    specSubmit sp data flags = some (data, decide (flags / 2 % 2 = 1)) := by
+  simp [specSubmit, h]
+
+/-- UPDATE/LAST append to the open stream -/
+theorem C01_append (b : Bytes) (cl : Bool) (data : Bytes) (flags : Nat) (h : flags % 2 = 0) :
+    specSubmit (some (b, cl)) data flags = some (b ++ data, decide (flags / 2 % 2 = 1)) := by
+  simp [specSubmit, h]
 
 /-- Any segmentation of a stream into absorb calls gives the state of one call on the concatenation
     (empty, sub-block and unaligned segments are not special cases). -/
@@ -16,25 +59,19 @@ theorem C01_segmentation (A : Alg D) (hB : 0 < A.B) (s : S UInt8 D) (hs : s.part
     (segs : List Bytes) : segs.foldl (absorb A.B A.f) s = absorb A.B A.f s segs.flatten :=
   absorb_segments A.B hB A.f s hs segs
 
-/-- The resubmit loop of the context layer — whichever contexts come back from the lanes, in
-    whatever order, for any lane occupancy — never changes the value any context will settle to,
-    keeps the lane bookkeeping consistent, and only hands back contexts that are out of every lane
-    and no longer PROCESSING. (Partial: the end-to-end statement over whole histories is C01 below.) -/
-theorem C01_resubmit_partial (A : Alg D) (hB : 0 < A.B) (fuel : Nat) (m : M D) (r : Option Cid)
-    (hok : MgrOk m) (hs : ∀ j, Shape A.B (m.ctxs j))
-    (hr : ∀ c, r = some c → (m.ctxs c).lane = none ∧ (m.ctxs c).processing = true) :
-    ResubmitPost A m (resubmit A fuel m r).1 (resubmit A fuel m r).2 :=
-  resubmit_post A hB fuel m r hok hs hr
+/-- the five instances: `mdState` is the standard's state, so `out` of it is the standard digest -/
+theorem C01_is_standard (h : HashAlg) (b : Bytes) :
+    h.out (mdState (ofSpec h id) b) = h.hash b := rfl
 
-/-- `hash_pad` ends the padded tail on a block boundary after one or two blocks (64-byte block) -/
-theorem C01_padEnd64 (total : Nat) (h : total < 2^64 - 64) :
-    let e := padEnd 64 8 total
-    (e = 64 ∨ e = 128) ∧ (e = 64 ↔ total % 64 + 1 + 8 ≤ 64) ∧ (total - total % 64 + e) % 64 = 0 :=
-  padEnd64 total h
+theorem C01_params_ok :
+    AlgOk (ofSpec Sha1.alg id) ∧ AlgOk (ofSpec Sha256.alg id) ∧ AlgOk (ofSpec Sha512.alg id) ∧
+    AlgOk (ofSpec Md5.alg id) ∧ AlgOk (ofSpec Sm3.alg id) := by
+  refine ⟨?_, ?_, ?_, ?_, ?_⟩ <;> simp [AlgOk, ofSpec, Sha1.alg, Sha256.alg, Sha512.alg, Md5.alg, Sm3.alg]
 
-theorem C01_padEnd128 (total : Nat) (h : total < 2^64 - 128) :
-    let e := padEnd 128 16 total
-    (e = 128 ∨ e = 256) ∧ (e = 128 ↔ total % 128 + 1 + 16 ≤ 128) ∧ (total - total % 128 + e) % 128 = 0 :=
-  padEnd128 total h
+/-- non-vacuity: a concrete two-segment history on a 2-lane manager reaches a closed, idle context -/
+example : ∃ w, run ⟨2, 1⟩ (ofSpec Sha256.alg id) (world0 ⟨2, 1⟩ (fun _ => Sha256.init))
+      [.submit 0 [1, 2, 3] 1, .submit 0 [4] 2, .flush] = some w ∧
+      w.sp 0 = some ([1, 2, 3, 4], true) ∧ (w.m.ctxs 0).processing = false := by
+  refine ⟨_, rfl, ?_, ?_⟩ <;> decide
 
 end IsalVerif.HashMB
